@@ -21,6 +21,13 @@ func queryEvent(
 	fs []*mocrelay.ReqFilter,
 	maxLimit uint,
 ) (events []*mocrelay.Event, err error) {
+	// A filter list matches when any member matches: an empty list matches
+	// nothing (without this, the query below would have no WHERE clause and
+	// return every stored event).
+	if len(fs) == 0 {
+		return nil, nil
+	}
+
 	q, param, err := buildEventQuery(fs, seed, maxLimit)
 	if err != nil {
 		return nil, fmt.Errorf("failed to build query: %w", err)
